@@ -80,6 +80,10 @@ pub trait Scenario: Send + Sync {
     fn horizon(&self) -> u32 {
         20_000
     }
+    /// False if the scenario involves threads the scheduler cannot control (replays may differ).
+    fn deterministic(&self) -> bool {
+        true
+    }
 }
 
 #[derive(Clone)]
